@@ -275,12 +275,15 @@ Definition cat_type_ok (cat ty : Z) : bool :=
   else if cat =? CAT_REFERRAL then ty =? RT_REFERRAL
   else false.
 
-(* types/ticket.go CreateCampaignPayload.Validate (exactly: negative components next to a positive one
-   pass; negative percentages next to a positive one pass) *)
+Definition opt_neg (o : option Z) : bool := match o with Some v => v <? 0 | None => false end.       (* !IsNil && IsNegative() *)
+
+(* types/ticket.go CreateCampaignPayload.Validate (as of /repo commit f6ab6fd: a negative amount or percentage
+   is refused right after validateRewardCategory, before the amount-type switch) *)
 Definition payload_valid (now start end_ cat ty atype : Z) (ra : ramount_p) : bool :=
   if end_ <=? start then false
   else if end_ <=? now then false
   else if negb (cat_type_ok cat ty) then false
+  else if opt_neg (rp_main ra) || opt_neg (rp_sub ra) || opt_neg (rp_mainpct ra) || opt_neg (rp_subpct ra) then false
   else if negb (
     if atype =? AT_FIXED then
       (if opt_pos (rp_mainpct ra) || opt_pos (rp_subpct ra) then false
@@ -592,7 +595,8 @@ Definition cap_step (s : rstate) (c : campaign) (receiver : Z) : option rstate :
   else Some s.
 
 (* keeper/msg_server_reward.go GrantReward (+ MsgGrantReward.ValidateBasic).  The pool is charged
-   Receiver.TotalAmount() = main + sub although DistributeRewards pays max(main,0) + max(sub,0). *)
+   Receiver.TotalAmount() = main + sub while DistributeRewards pays max(main,0) + max(sub,0); the two agree
+   because stored campaign components are never negative (payload validation, Proofs/RewardInv.v). *)
 Definition grant_reward (s : rstate) (signer : Z) (tk : ticket) (uid camp : Z) (haskyc : bool) (ky : kyc)
            (receiver source peer betuid : Z) : option rstate :=
   if (uid <? 0) || (camp <? 0) then None
